@@ -19,7 +19,10 @@ import Driver.Common
   ix S0 S1 …                      integer-vector indexing A(S0,S1,…) of the current view (state unchanged)
                                   S = i:E | r:E,E | s:E,E,E | _ | v:a,b,… | x:a,b,… | w:K0,K1,… | u:VE:a,b,…
                                   (v: intVector, x: the expression tmp+2 with these values, w: end - tmp with tmp = K's,
-                                   u: the integer expression VE over the intVector `v` holding a,b,…, e.g. u:(9-v):1,3,0)
+                                   u: the integer expression VE over the intVector `v` holding a,b,…, e.g. u:(9-v):1,3,0;
+                                   f:a,b,c a FixedArray<int,false,3>; the entry list of v: x: w: u: may be `L|a,b,…` with
+                                   L = sOFF.STR | cK.NC | rK.NR: the intVector is a strided / reversed / offset view of a
+                                   larger one, or a column / row of an intMatrix, holding exactly these entries)
   an index expression that divides by zero for the dimension it indexes: `err undefined` (never generated)
 
   answer to a view-forming op:  `ok r=… d=… s=… o=… e=… w=…`  (rank, extents, offsets, data()-parent,
@@ -152,11 +155,31 @@ def parseOp (ws : List String) : Option Op :=
 
 /-- a selector and the letter of the C++ argument type the harness uses for it -/
 def parseSel (t : String) : Option (Sel × Char) :=
-  let entries (u : String) : Option (List Int) :=
+  -- `L|a,b,c`: the intVector is a VIEW (sOFF.STR: strided / reversed / offset part of a larger intVector, cK.NC / rK.NR:
+  -- column / row of an intMatrix) holding these entries in index order.  A view of an index vector is just another
+  -- entry list: the layout is validated (as the harness does) and otherwise ignored.
+  let plain (u : String) : Option (List Int) :=
     if u = "" then some [] else (u.splitOn ",").mapM String.toInt?
+  let entries (u : String) : Option (List Int) :=
+    match u.splitOn "|" with
+    | [e] => plain e
+    | [lay, e] =>
+      match plain e, ((lay.drop 1).toString.splitOn ".").mapM String.toInt? with
+      | some l, some [p, q] =>
+        let n : Int := l.length
+        let kind := (lay.take 1).toString
+        if n = 0 then (if kind = "s" ∨ kind = "c" ∨ kind = "r" then some l else none)
+        else if kind = "s" then
+          (if q ≠ 0 ∧ 0 ≤ p ∧ p ≤ 4096 ∧ 0 ≤ p + (n - 1) * q ∧ p + (n - 1) * q ≤ 4096 then some l else none)
+        else if kind = "c" ∨ kind = "r" then (if 1 ≤ q ∧ q ≤ 64 ∧ 0 ≤ p ∧ p < q then some l else none)
+        else none
+      | _, _ => none
+    | _ => none
   if t.startsWith "v:" then (entries (t.drop 2).toString).map fun l => (Sel.vec (l.map EndExpr.lit), 'V')
   else if t.startsWith "x:" then (entries (t.drop 2).toString).map fun l => (Sel.vec (l.map EndExpr.lit), 'X')
   else if t.startsWith "w:" then (entries (t.drop 2).toString).map fun l => (Sel.vec (l.map EndExpr.fromEnd), 'W')
+  else if t.startsWith "f:" then
+    (plain (t.drop 2).toString).bind fun l => if l.length = 3 then some (Sel.vec (l.map EndExpr.lit), 'F') else none
   else if t.startsWith "u:" then
     match (t.drop 2).toString.splitOn ":" with
     | [ve, ents] =>
@@ -178,7 +201,7 @@ def ixMenu4 : List String :=
   ["IEVA", "EIEV", "VIEI", "AVIE", "IVRE", "VVVV", "EAVV", "RVAI", "IIEV", "VEEI", "AIVE", "VRAV"]
 
 def ixCompiled (letters : List Char) : Bool :=
-  let isVec (c : Char) : Bool := c = 'V' || c = 'X' || c = 'W' || c = 'U'
+  let isVec (c : Char) : Bool := c = 'V' || c = 'X' || c = 'W' || c = 'U' || c = 'F'
   letters.any isVec &&
   match letters.length with
   | 1 => true
